@@ -195,3 +195,8 @@ Inductive rh_stmt :=
 | RHRead (empty nonempty : rh_err).
     (* match stream.read(buf.writable()).await { Err(..) | Ok(0) if buf.is_empty() => return Err(HttpError::empty),
          Err(..) | Ok(0) => return Err(HttpError::nonempty), Ok(n) => buf.wrote(n), } *)
+
+(* the task HttpServerBuilder::spawn starts (src/lib.rs) *)
+Inductive spawn_stmt :=
+| SSAcceptLoop                  (* accept_loop(self.permit, listener, token_set, conn_handler).await; *)
+| SSSendStopped.                (* let _ignored = sender.send(()); *)
